@@ -2,10 +2,19 @@
 (* C13 — metabooks round-trip through JSON and identify collections deterministically.
 
    A render REQUEST is  content + representation:
-     content         mb   = [title, subtitle, editor, items]           the collection
+     content         mb   = [title, subtitle, editor, items, wikis, licenses, source]   the collection
                             items: sequence of Article [k="a", title, rev, dt]
                                                or Chapter [k="c", title, items (articles)]
-                     wiki = [url, ext, login]                          the wiki coordinates
+                                               or Custom  [k="x", title, content]
+                            wikis: sequence of WikiConf [ident, baseurl]  (distinct idents)
+                            licenses: sequence of License [title, wikitext]
+                            source: <<>> or <<Source [name, lang, iw]>>; iw = "none" or the prefix
+                                    of one Interwiki object the source carries
+                            i.e. every class mwlib's JSON loader can rebuild occurs as content
+                     wiki = the wiki coordinates: the base URL as a record of COMPONENTS
+                            [scheme, user, host, port, path, seg] plus ext (script_extension)
+                            and login (login_credentials); checks/c13.py assembles
+                            scheme://[user@]host[:port]/path/[seg/]
      representation  rep  = [keys, indent, ascii, ser]                 how the JSON text is written:
                             key order, whitespace, non-ASCII escaped or not, and who serialised it
                             (the client / mwlib's myjson.dumps / Collection.dumps after loads)
@@ -13,8 +22,8 @@
    "none" stands for an absent optional field.
 
    Two kinds of actions: CONTENT edits (append / remove / swap article, change a revision or a
-   title, wrap an article in a chapter, set / unset an optional field, change the wiki
-   coordinates) and REPRESENTATION edits (permute keys, change indentation, escape or not,
+   title, wrap an article in a chapter, set / unset an optional field, add / remove / change a
+   WikiConf, License, Source, Interwiki, Custom item, change ONE component of the wiki coordinates) and REPRESENTATION edits (permute keys, change indentation, escape or not,
    re-serialise).  The identity the property demands is the content itself:  Ident == <<mb, wiki>>.
    TLC checks (oracle sanity, every generated transition): representation edits preserve Ident,
    content edits change it; and enumerates the edit graph to MaxDepth from a few seed books.
@@ -32,17 +41,28 @@ CONSTANTS MaxDepth,      \* length of edit paths explored from each seed
           SeedIds,       \* subset of DOMAIN SeedBook
           Emit,          \* TRUE: print seeds and transitions as JSON
           EmitPrefix,    \* marker in front of every printed JSON line
-          IdentMode      \* "content" in the reference; "no-revision" / "with-keyorder" re-introduce
-                         \* defect classes (a field left out of the id; unsorted dump feeding the id)
+          OneComponent,  \* TRUE: the wiki coordinates differ from the seed's in at most one component
+          IdentMode      \* "content" in the reference; "no-revision" / "with-keyorder" / "host-only"
+                         \* re-introduce defect classes (a field left out of the id; unsorted dump
+                         \* feeding the id; the URL reduced to its host)
 
 VARIABLES mb, wiki, rep, n, last
 vars == <<mb, wiki, rep, n, last>>
 View == <<mb, wiki, rep>>
 
 None == "none"
-Urls     == {"u1", "u2"}
-Exts     == {None, "e1"}
-Logins   == {None, "l1"}
+\* wiki coordinates: the values each component can take
+WikiDom == [ scheme |-> {"http", "https"}, user |-> {None, "usr"}, host |-> {"h1", "h2"},
+             port |-> {None, "p1", "p2"}, path |-> {"pa", "pb"}, seg |-> {None, "sg"},
+             ext |-> {None, "e1"}, login |-> {None, "l1"} ]
+SeedWiki == [ scheme |-> "http", user |-> None, host |-> "h1", port |-> None, path |-> "pa", seg |-> None,
+              ext |-> None, login |-> None ]
+\* in how many components a request's coordinates differ from the seed's
+WDiff(w) == Cardinality({f \in DOMAIN SeedWiki : w[f] # SeedWiki[f]})
+WikiIdents == {"w1", "w2"}
+BaseUrls   == {"b1", "b2"}
+LicTexts   == {"lw1", "lw2"}
+Langs      == {"la1", "la2"}
 OptVals  == {None, "o1"}
 KeyOrders == {"sorted", "reversed", "shuffled"}
 Indents   == {"compact", "i1", "i4", "airy"}
@@ -50,18 +70,26 @@ Sers      == {"client", "myjson", "coll"}
 
 Art(t, r, d) == [k |-> "a", title |-> t, rev |-> r, dt |-> d]
 Chap(t, its) == [k |-> "c", title |-> t, items |-> its]
+Cust(t)      == [k |-> "x", title |-> t, content |-> "cc1"]
+WConf(i, b)  == [ident |-> i, baseurl |-> b]
+Lic(w)       == [title |-> "lt1", wikitext |-> w]
+Src(l, iw)   == [name |-> "sn1", lang |-> l, iw |-> iw]
+Book(its, ws, ls, src) == [title |-> "t1", subtitle |-> None, editor |-> None, items |-> its,
+                           wikis |-> ws, licenses |-> ls, source |-> src]
 
 SeedBook ==
-  [ empty   |-> <<>>,
-    one     |-> <<Art("t1", None, None)>>,
-    two     |-> <<Art("t1", None, None), Art("t2", "r1", "o1")>>,
-    nested  |-> <<Chap("t3", <<Art("t1", None, None), Art("t2", None, None)>>), Art("t1", "r1", None)>>,
-    twochap |-> <<Chap("t1", <<Art("t2", "r1", None)>>), Chap("t2", <<>>)>> ]
+  [ empty   |-> Book(<<>>, <<>>, <<>>, <<>>),
+    one     |-> Book(<<Art("t1", None, None)>>, <<>>, <<>>, <<>>),
+    two     |-> Book(<<Art("t1", None, None), Art("t2", "r1", "o1")>>, <<>>, <<>>, <<>>),
+    nested  |-> Book(<<Chap("t2", <<Art("t1", None, None), Art("t2", None, None)>>), Art("t1", "r1", None)>>, <<>>, <<>>, <<>>),
+    twochap |-> Book(<<Chap("t1", <<Art("t2", "r1", None)>>), Chap("t2", <<>>)>>, <<>>, <<>>, <<>>),
+    \* every kind of object the loader rebuilds
+    kinds   |-> Book(<<Art("t1", None, None), Cust("t2")>>, <<WConf("w1", "b1")>>, <<Lic("lw1")>>, <<Src("la1", "i1")>>) ]
 
 -----------------------------------------------------------------------------
 RECURSIVE NArt(_)
 NArt(its) == IF its = <<>> THEN 0
-             ELSE (IF Head(its).k = "a" THEN 1 ELSE Len(Head(its).items)) + NArt(Tail(its))
+             ELSE (IF Head(its).k = "c" THEN Len(Head(its).items) ELSE 1) + NArt(Tail(its))
 NChap(its) == Cardinality({i \in DOMAIN its : its[i].k = "c"})
 
 RemoveAt(s, i) == SubSeq(s, 1, i - 1) \o SubSeq(s, i + 1, Len(s))
@@ -70,17 +98,19 @@ SwapAt(s, i)   == [s EXCEPT ![i] = s[i + 1], ![i + 1] = s[i]]
 \* the identity the property demands: the content and the wiki coordinates, nothing else
 DropRevs(its) == [i \in DOMAIN its |->
                     IF its[i].k = "a" THEN [its[i] EXCEPT !.rev = None]
+                    ELSE IF its[i].k = "x" THEN its[i]
                     ELSE [its[i] EXCEPT !.items = [j \in DOMAIN its[i].items |-> [its[i].items[j] EXCEPT !.rev = None]]]]
 IdentOf(m, w, r) ==
   CASE IdentMode = "content"       -> <<m, w>>
     [] IdentMode = "no-revision"   -> <<[m EXCEPT !.items = DropRevs(m.items)], w>>
     [] IdentMode = "with-keyorder" -> <<m, w, r.keys>>
+    [] IdentMode = "host-only"     -> <<m, [w EXCEPT !.port = None, !.user = None]>>
 Ident == IdentOf(mb, wiki, rep)
 
 -----------------------------------------------------------------------------
 Init ==
-  /\ \E s \in SeedIds : mb = [title |-> "t1", subtitle |-> None, editor |-> None, items |-> SeedBook[s]]
-  /\ wiki = [url |-> "u1", ext |-> None, login |-> None]
+  /\ \E s \in SeedIds : mb = SeedBook[s]
+  /\ wiki = SeedWiki
   /\ rep = [keys |-> "sorted", indent |-> "compact", ascii |-> TRUE, ser |-> "client"]
   /\ n = 0
   /\ last = <<"seed", "seed">>
@@ -95,6 +125,7 @@ Repr(newrep, label)   == /\ rep' = newrep /\ n' = n + 1 /\ last' = <<"rep">> \o 
                          /\ UNCHANGED <<mb, wiki>>
 Items(its) == [mb EXCEPT !.items = its]
 IsChap(i) == mb.items[i].k = "c"
+IsArt(i)  == mb.items[i].k = "a"
 
 \* ---- content edits
 AppendArticle ==
@@ -115,7 +146,7 @@ AppendChapter ==
 RemoveItem ==
   /\ Bounded
   /\ \E i \in DOMAIN mb.items :
-       \/ Content(Items(RemoveAt(mb.items, i)), <<"RemoveItem", IF IsChap(i) THEN "chapter" ELSE "top">>)
+       \/ Content(Items(RemoveAt(mb.items, i)), <<"RemoveItem", IF IsChap(i) THEN "chapter" ELSE IF IsArt(i) THEN "top" ELSE "custom">>)
        \/ /\ IsChap(i)
           /\ \E j \in DOMAIN mb.items[i].items :
                Content(Items([mb.items EXCEPT ![i].items = RemoveAt(@, j)]), <<"RemoveItem", "in-chapter">>)
@@ -133,7 +164,7 @@ SwapItems ==                         \* swapping two equal neighbours would not 
 ChangeRevision ==
   /\ Bounded
   /\ \E i \in DOMAIN mb.items :
-       \/ /\ ~IsChap(i)
+       \/ /\ IsArt(i)
           /\ \E r \in Revs \ {mb.items[i].rev} :
                Content(Items([mb.items EXCEPT ![i].rev = r]), <<"ChangeRevision", "top">>)
        \/ /\ IsChap(i)
@@ -145,7 +176,7 @@ ChangeTitle ==
   /\ \/ \E t \in Titles \ {mb.title} : Content([mb EXCEPT !.title = t], <<"ChangeTitle", "collection">>)
      \/ \E i \in DOMAIN mb.items :
           \/ \E t \in Titles \ {mb.items[i].title} :
-               Content(Items([mb.items EXCEPT ![i].title = t]), <<"ChangeTitle", IF IsChap(i) THEN "chapter" ELSE "article">>)
+               Content(Items([mb.items EXCEPT ![i].title = t]), <<"ChangeTitle", IF IsChap(i) THEN "chapter" ELSE IF IsArt(i) THEN "article" ELSE "custom">>)
           \/ /\ IsChap(i)
              /\ \E j \in DOMAIN mb.items[i].items : \E t \in Titles \ {mb.items[i].items[j].title} :
                   Content(Items([mb.items EXCEPT ![i].items[j].title = t]), <<"ChangeTitle", "article-in-chapter">>)
@@ -153,7 +184,7 @@ ChangeTitle ==
 WrapInChapter ==
   /\ Bounded /\ NChap(mb.items) < MaxChapters
   /\ \E i \in DOMAIN mb.items : \E t \in Titles :
-       /\ ~IsChap(i)
+       /\ IsArt(i)
        /\ Content(Items([mb.items EXCEPT ![i] = Chap(t, <<mb.items[i]>>)]), <<"WrapInChapter">>)
 
 SetOptional ==                       \* set or unset ("none") an optional field
@@ -161,15 +192,55 @@ SetOptional ==                       \* set or unset ("none") an optional field
   /\ \/ \E v \in OptVals \ {mb.subtitle} : Content([mb EXCEPT !.subtitle = v], <<"SetOptional", "subtitle">>)
      \/ \E v \in OptVals \ {mb.editor} : Content([mb EXCEPT !.editor = v], <<"SetOptional", "editor">>)
      \/ \E i \in DOMAIN mb.items :
-          /\ ~IsChap(i)
+          /\ IsArt(i)
           /\ \E v \in OptVals \ {mb.items[i].dt} :
                Content(Items([mb.items EXCEPT ![i].dt = v]), <<"SetOptional", "displaytitle">>)
 
+\* one component of the wiki coordinates changes; requests differing from the seed's coordinates in
+\* more than one component are left to the simulation runs (OneComponent = FALSE)
 ChangeWiki ==
   /\ Bounded
-  /\ \/ \E u \in Urls \ {wiki.url} : Coord([wiki EXCEPT !.url = u], <<"ChangeWiki", "base_url">>)
-     \/ \E e \in Exts \ {wiki.ext} : Coord([wiki EXCEPT !.ext = e], <<"ChangeWiki", "script_extension">>)
-     \/ \E l \in Logins \ {wiki.login} : Coord([wiki EXCEPT !.login = l], <<"ChangeWiki", "login_credentials">>)
+  /\ \E f \in DOMAIN SeedWiki : \E v \in WikiDom[f] \ {wiki[f]} :
+       /\ (OneComponent => WDiff([wiki EXCEPT ![f] = v]) <= 1)
+       /\ Coord([wiki EXCEPT ![f] = v],
+                <<"ChangeWiki", f, IF wiki[f] = None THEN "added" ELSE IF v = None THEN "removed" ELSE "changed">>)
+
+\* ---- the other kinds of objects the loader rebuilds
+AppendCustom ==
+  /\ Bounded /\ NArt(mb.items) < MaxArticles
+  /\ \A i \in DOMAIN mb.items : mb.items[i].k # "x"
+  /\ \E t \in Titles : Content(Items(Append(mb.items, Cust(t))), <<"AppendCustom">>)
+
+EditWikiConf ==
+  /\ Bounded
+  /\ \/ /\ Len(mb.wikis) < 2
+        /\ \E i \in WikiIdents \ {mb.wikis[j].ident : j \in DOMAIN mb.wikis} :
+             Content([mb EXCEPT !.wikis = Append(@, WConf(i, "b1"))], <<"EditWikiConf", "add">>)
+     \/ \E j \in DOMAIN mb.wikis :
+          \/ Content([mb EXCEPT !.wikis = RemoveAt(@, j)], <<"EditWikiConf", "remove">>)
+          \/ \E b \in BaseUrls \ {mb.wikis[j].baseurl} :
+               Content([mb EXCEPT !.wikis[j].baseurl = b], <<"EditWikiConf", "baseurl">>)
+          \/ \E i \in WikiIdents \ {mb.wikis[k].ident : k \in DOMAIN mb.wikis} :
+               Content([mb EXCEPT !.wikis[j].ident = i], <<"EditWikiConf", "ident">>)
+
+EditLicense ==
+  /\ Bounded
+  /\ \/ /\ mb.licenses = <<>>
+        /\ Content([mb EXCEPT !.licenses = <<Lic("lw1")>>], <<"EditLicense", "add">>)
+     \/ /\ mb.licenses # <<>>
+        /\ \/ Content([mb EXCEPT !.licenses = <<>>], <<"EditLicense", "remove">>)
+           \/ \E w \in LicTexts \ {mb.licenses[1].wikitext} :
+                Content([mb EXCEPT !.licenses[1].wikitext = w], <<"EditLicense", "wikitext">>)
+
+EditSource ==                         \* mb.source is <<>> or <<Source>>
+  /\ Bounded
+  /\ \/ /\ mb.source = <<>>
+        /\ Content([mb EXCEPT !.source = <<Src("la1", None)>>], <<"EditSource", "add">>)
+     \/ /\ mb.source # <<>>
+        /\ \/ Content([mb EXCEPT !.source = <<>>], <<"EditSource", "remove">>)
+           \/ \E l \in Langs \ {mb.source[1].lang} :
+                Content([mb EXCEPT !.source[1].lang = l], <<"EditSource", "language">>)
+           \/ Content([mb EXCEPT !.source[1].iw = IF @ = None THEN "i1" ELSE None], <<"EditSource", "interwiki">>)
 
 \* ---- representation edits
 PermuteKeys ==
@@ -187,6 +258,7 @@ Reserialise ==
 
 Next == \/ AppendArticle \/ AppendInChapter \/ AppendChapter \/ RemoveItem \/ SwapItems
         \/ ChangeRevision \/ ChangeTitle \/ WrapInChapter \/ SetOptional \/ ChangeWiki
+        \/ AppendCustom \/ EditWikiConf \/ EditLicense \/ EditSource
         \/ PermuteKeys \/ ChangeWhitespace \/ ToggleAsciiEscape \/ Reserialise
 Spec == Init /\ [][Next]_vars
 
@@ -196,11 +268,16 @@ TypeOK ==
   /\ mb.title \in Titles /\ mb.subtitle \in OptVals /\ mb.editor \in OptVals
   /\ \A i \in DOMAIN mb.items :
        LET it == mb.items[i] IN
-       IF it.k = "a" THEN it.title \in Titles /\ it.rev \in Revs /\ it.dt \in OptVals
-       ELSE /\ it.title \in Titles
-            /\ \A j \in DOMAIN it.items : it.items[j].k = "a" /\ it.items[j].title \in Titles
+       CASE it.k = "a" -> it.title \in Titles /\ it.rev \in Revs /\ it.dt \in OptVals
+         [] it.k = "x" -> it.title \in Titles
+         [] it.k = "c" -> /\ it.title \in Titles
+                          /\ \A j \in DOMAIN it.items : it.items[j].k = "a" /\ it.items[j].title \in Titles
   /\ NArt(mb.items) <= MaxArticles /\ NChap(mb.items) <= MaxChapters
-  /\ wiki.url \in Urls /\ wiki.ext \in Exts /\ wiki.login \in Logins
+  /\ Len(mb.wikis) <= 2
+  /\ \A i, j \in DOMAIN mb.wikis : i # j => mb.wikis[i].ident # mb.wikis[j].ident      \* get_wiki(ident) is unambiguous
+  /\ Len(mb.licenses) <= 1 /\ Len(mb.source) <= 1
+  /\ \A f \in DOMAIN SeedWiki : wiki[f] \in WikiDom[f]
+  /\ OneComponent => WDiff(wiki) <= 1
 
 \* oracle sanity, evaluated on every generated transition (ACTION_CONSTRAINT): a representation
 \* edit preserves the identity, a content edit changes it, nothing else happens
